@@ -21,9 +21,8 @@
     ([C08_orientation_restore_delaunay], [C08_orientation_history]).
     REMAINS: (1) that the result of from_polygon satisfies LNKG is NOT proved (its links are set by mark_neighbourhouds up to
     Segment3D::compare, and the REVERSED orientation of shared edges is the consistency of ear clipping): LNKG is a hypothesis on
-    the starting mesh; (2) [refine] steps are not covered by the history theorems (a refine pass IS a sequence of split_edge at the
-    exact midpoint / restore_delaunay / add_point steps, but the separation of each inserted point from the then-current vertices
-    cannot be stated from outside the recursion); (3) float instance: nothing geometric (SEP needs Leibniz equality = compare). *)
+    the starting mesh; (2) [refine] is covered separately, through its trace of elementary steps: Properties/C08_refine.v;
+    (3) float instance: nothing geometric (SEP needs Leibniz equality = compare). *)
 From Coq Require Import ZArith Reals List Permutation Floats Lra.
 Set Warnings "-inexact-float".
 From G3 Require Import Model.Num Model.NumF Model.Base Model.Vec Model.Segment Model.Triangle Model.Loop Model.Polygon Model.Triangulation
